@@ -304,6 +304,63 @@ pub fn run(ctx: &Ctx) -> Report {
         }
         cases.push(Case::new("one_key_object_reused", prog));
     }
+    // values are stored as given: nil is a value like any other (an entry whose value is nil exists), and
+    // writing a key again stores the new value also when it equals the old one (an equal but separately
+    // built container, the zero of the other sign) - seen afterwards through what only the new one does
+    for k in keys.iter().filter(|k| k.hashable && ["one", "str_a", "t12", "r12", "nil", "true"].contains(&k.name)) {
+        let key = || key_expr(k.name);
+        let dumpish = |m: &str| -> Vec<Stmt> {
+            vec![
+                probe(invoke(var(m), "len", vec![])),
+                probe(invoke(var(m), "has_key", vec![key()])),
+                probe(invoke(var(m), "get", vec![key()])),
+                probe(invoke(invoke(var(m), "keys", vec![]), "len", vec![])),
+                probe(invoke(invoke(var(m), "values", vec![]), "len", vec![])),
+                probe(invoke(var(m), "items", vec![])),
+            ]
+        };
+        // nil values: into an empty map, after a removal, after clear, over an old value, in a literal
+        let mut prog = vec![class_stmt("K", None, Some("new"), vec![]), var_stmt("m", Expr::MapLit(vec![]))];
+        prog.push(probe(invoke(var("m"), "insert", vec![key(), Expr::Nil])));
+        prog.extend(dumpish("m"));
+        prog.push(probe(invoke(var("m"), "remove", vec![key()])));
+        prog.extend(dumpish("m"));
+        prog.push(probe(invoke(var("m"), "insert", vec![key(), Expr::Nil])));
+        prog.extend(dumpish("m"));
+        prog.push(probe(invoke(var("m"), "insert", vec![key(), s("not nil")])));
+        prog.push(probe(invoke(var("m"), "insert", vec![key(), Expr::Nil])));
+        prog.extend(dumpish("m"));
+        prog.push(probe(invoke(var("m"), "clear", vec![])));
+        prog.push(probe(invoke(var("m"), "insert", vec![key(), Expr::Nil])));
+        prog.extend(dumpish("m"));
+        prog.push(var_stmt("lit", Expr::MapLit(vec![(key(), Expr::Nil)])));
+        prog.extend(dumpish("lit"));
+        prog.push(probe(bin(BinOp::Eq, var("lit"), var("m"))));
+        cases.push(Case::new("values_are_stored_as_given", prog));
+        // equal values that are different objects
+        let pairs: Vec<(Expr, Expr, Vec<Stmt>, Expr)> = vec![
+            // (first value, second value, what is done to the second afterwards, what is read)
+            (Expr::VecLit(vec![num(1.0)]), Expr::VecLit(vec![num(1.0)]), vec![expr_stmt(invoke(var("second"), "push", vec![num(2.0)]))], invoke(var("m"), "get", vec![key()])),
+            (Expr::MapLit(vec![]), Expr::MapLit(vec![]), vec![expr_stmt(invoke(var("second"), "insert", vec![s("added"), num(1.0)]))], invoke(var("m"), "get", vec![key()])),
+            (num(0.0), num(-0.0), vec![], bin(BinOp::Div, num(1.0), invoke(var("m"), "get", vec![key()]))),
+            (num(-0.0), num(0.0), vec![], bin(BinOp::Div, num(1.0), invoke(var("m"), "get", vec![key()]))),
+            (Expr::TupleLit(vec![num(1.0), Expr::VecLit(vec![])]), Expr::TupleLit(vec![num(1.0), Expr::VecLit(vec![])]), vec![expr_stmt(invoke(index(var("second"), num(1.0)), "push", vec![s("through the tuple")]))], invoke(var("m"), "get", vec![key()])),
+            (num(1.0), Expr::RawNum("1.0".into(), 1.0), vec![], invoke(var("m"), "get", vec![key()])),
+        ];
+        for (first, second, after, read) in pairs {
+            let mut prog = vec![class_stmt("K", None, Some("new"), vec![]), var_stmt("m", Expr::MapLit(vec![])), var_stmt("first", first), var_stmt("second", second)];
+            prog.push(probe(invoke(var("m"), "insert", vec![key(), var("first")])));
+            prog.push(probe(invoke(var("m"), "insert", vec![key(), var("second")])));
+            prog.extend(after);
+            prog.push(probe(read.clone()));
+            prog.push(probe(invoke(var("m"), "len", vec![])));
+            // and back again
+            prog.push(probe(invoke(var("m"), "insert", vec![key(), var("first")])));
+            prog.push(probe(read));
+            prog.push(probe(invoke(var("m"), "items", vec![])));
+            cases.push(Case::new("values_are_stored_as_given", prog));
+        }
+    }
     // unhashable keys in a literal
     for k in keys.iter().filter(|k| !k.hashable) {
         cases.push(Case::new(
@@ -332,7 +389,7 @@ pub fn run(ctx: &Ctx) -> Report {
     mcheck::fill_report(
         &mut report,
         &stats,
-        "breadth-first search over HashMap states (canonical = sorted reference contents) from the empty map and from 14 literals, over insert/remove with every key of a pool holding equal-but-separately-built keys (1 and 1.0, 0 and -0, two builds of (1,2), of \"a\" and of 1..2 - with ten (seventy in the thorough tier) other ranges built before every operation and every dump, so that the two builds are two objects -, a tuple holding a range, nested tuples, two pairs of tuples of different lengths whose hashes collide), NaN, a class, and five unhashable values, plus clear; every transition leaving every state is executed on the real HashMap from a rebuilt copy and followed by a full dump (len; has_key/get through every hashable pool key; keys/values/items enumerate each entry once; a map rebuilt from items is == the original). One program per state.",
+        "breadth-first search over HashMap states (canonical = sorted reference contents) from the empty map and from 14 literals, over insert/remove with every key of a pool holding equal-but-separately-built keys (1 and 1.0, 0 and -0, two builds of (1,2), of \"a\" and of 1..2 - with ten (seventy in the thorough tier) other ranges built before every operation and every dump, so that the two builds are two objects -, a tuple holding a range, nested tuples, two pairs of tuples of different lengths whose hashes collide), NaN, a class, and five unhashable values, plus clear; every transition leaving every state is executed on the real HashMap from a rebuilt copy and followed by a full dump (len; has_key/get through every hashable pool key; keys/values/items enumerate each entry once; a map rebuilt from items is == the original). One program per state. Plus `values_are_stored_as_given`: nil as a value (into an empty map, after a removal, after clear, over an old value, in a literal) and a key written again with a value that equals the old one but is another object (vec, map, tuple holding a vec, the zero of the other sign, 1 / 1.0), under six kinds of key.",
         json!({"max_live_entries": max_live, "depth": max_depth, "pool_keys": keys.len()}),
     );
     report.cov("states", json!(states));
